@@ -79,6 +79,9 @@ func (p c10) Run(runseed uint64, tier string, acc *Acc) []*core.Violation {
 	if f.W.Many {
 		acc.Inc("class/many-row-groups")
 	}
+	if f.W.Huge {
+		acc.Inc("class/huge-values")
+	}
 	for k := 1; k <= m; k++ {
 		if (f.W.Large || f.W.Many) && r.Intn(m) >= 400 {
 			continue // large and many-row-group classes: a seeded sample of about 400 call positions
